@@ -16,6 +16,9 @@ REQUIRED_THEOREMS = [
     "Acn.C16.site_structure_caltech", "Acn.C16.site_structure_jpl", "Acn.C16.site_structure_office001",
     "Acn.C16.site_instances", "Acn.C16.wye_power", "Acn.C16.line_current_sq", "Acn.C16.site_power_bound",
     "Acn.C16.site_power_bound_nominal208", "Acn.C16.pod_panel_within_rating", "Acn.C16.generated_sites_power_bound",
+    "Acn.C16.site_structure_all_voltages", "Acn.C16.feasible_iff", "Acn.C16.secondary_feasible_iff",
+    "Acn.C16.wye_power_attained", "Acn.C16.balanced_draws_full_allowance", "Acn.C16.office001_bound_attained",
+    "Acn.C16.primary_implied",
 ]
 BUDGET = {"quick": 700, "thorough": 12000, "search": 4000}
 TRUSTED = [
@@ -34,6 +37,9 @@ RULE = ("per case one real site object (caltech/jpl/office001 × basic/real EVSE
         "a non-negative direction matrix stations×T (random sparse, single-line-pair heavy, balanced, two-pair, "
         "pod-only, panel-only, one-transformer, single-EVSE, allowable-rate grids) and a mode: raw, scaled by bisection on "
         "is_feasible to the boundary·(1∓1e-8), exact −90° edge (value = bound / bound+1ulp), malformed shape, negative; "
+        "voltage argument default / 208 / 240, caltech also through the deprecated CaltechACN wrapper (keyword and positional); "
+        "every period is also judged alone (is_feasible of the single column); Office001 exhaustively over {0,16,32}^8 "
+        "(27 chunks × 243 periods; all chunks at three capacities in the thorough tier, three random chunks in quick); "
         "non-trivial = schedule reported feasible with a transformer above 99 % of its allowance, or a boundary/edge case; "
         "distinct by hash of the case")
 
@@ -77,18 +83,37 @@ OTHER_CAPS = {
 _NETS = {}
 
 
-def _net(site, basic, caps):
-    key = (site, bool(basic), tuple(float(c) for c in caps))
+def _net(site, basic, caps, voltage=None, wrapper=None):
+    key = (site, bool(basic), tuple(float(c) for c in caps), voltage, wrapper)
     if key not in _NETS:
+        import contextlib
+        import io
         from acnportal.acnsim.network import sites as S
         sp = SPEC[site]
-        with warnings.catch_warnings():
+        kw = dict(zip(sp["cap_names"], caps))
+        if voltage is not None:
+            kw["voltage"] = voltage
+        with warnings.catch_warnings(), contextlib.redirect_stdout(io.StringIO()):
             warnings.simplefilter("ignore")
-            net = getattr(S, sp["factory"])(basic_evse=bool(basic), **dict(zip(sp["cap_names"], caps)))
+            if wrapper == "pos":      # deprecated wrapper, positional (caltech only)
+                net = S.CaltechACN(bool(basic), 208 if voltage is None else voltage, *caps)
+            elif wrapper == "kw":
+                net = S.CaltechACN(basic_evse=bool(basic), **kw)
+            else:
+                net = getattr(S, sp["factory"])(basic_evse=bool(basic), **kw)
         if len(_NETS) > 64:
             _NETS.clear()
         _NETS[key] = net
     return _NETS[key]
+
+
+def _case_net(case):
+    return _net(case["site"], case["basic"], case["caps"], case.get("voltage"), case.get("wrapper"))
+
+
+def _case_voltage(case):
+    v = case.get("voltage")
+    return VLL_NOM if v is None else float(v)
 
 
 # ------------------------------------------------------------------ generation
@@ -148,6 +173,13 @@ def _gen_case(rng, i):
     caps = list(sp["defaults"]) if rng.random() < 0.5 else list(rng.choice(OTHER_CAPS[site]))
     T = rng.choice([1, 1, 1, 2, 3])
     case = {"site": site, "basic": rng.random() < 0.5, "caps": caps, "dir": _direction(rng, site, T)}
+    v = rng.random()
+    if v < 0.12:
+        case["voltage"] = 240          # the dump carries the 208 V and the 240 V topology of every site
+    elif v < 0.2:
+        case["voltage"] = rng.choice([208, 208.0])
+    if site == "caltech" and rng.random() < 0.25:
+        case["wrapper"] = rng.choice(["kw", "pos"])
     r = rng.random()
     if i % 11 == 10:
         case["mode"] = rng.choice(["edge0", "edge+"])
@@ -202,6 +234,16 @@ def corpus():
         for w in ([1.0, 0.0, 0.0], [0.0, 1.0, 0.0], [0.0, 0.0, 1.0], [1.0, 1.0, 0.0], [0.0, 1.0, 1.0], [1.0, 0.0, 1.0]):
             out.append({"site": site, "basic": True, "caps": list(SPEC[site]["defaults"]), "mode": "boundary-",
                         "dir": {"kind": "two_pair", "w": w, "jitter": None, "pick": 0, "T": 1, "equalize": True}})
+    # non-default voltage argument and the deprecated wrapper (positional call: basic, voltage, cap)
+    bal = {"kind": "balanced", "w": [1.0, 1.0, 1.0], "jitter": None, "pick": 0, "T": 1, "equalize": True}
+    for site in ("caltech", "jpl", "office001"):
+        out.append({"site": site, "basic": False, "caps": list(SPEC[site]["defaults"]), "voltage": 240,
+                    "mode": "boundary-", "dir": dict(bal)})
+    for wrapper, volt, caps in (("kw", None, [150]), ("pos", 240, [80]), ("pos", 208, [225.5]), ("kw", 240, [150])):
+        c = {"site": "caltech", "basic": True, "caps": caps, "wrapper": wrapper, "mode": "boundary-", "dir": dict(bal)}
+        if volt is not None:
+            c["voltage"] = volt
+        out.append(c)
     for site in ("caltech", "jpl", "office001"):
         for pick in range(6):
             out.append({"site": site, "basic": True, "caps": list(SPEC[site]["defaults"]), "mode": "edge0",
@@ -211,8 +253,19 @@ def corpus():
     return out
 
 
+def _exhaustive(chunk, caps):
+    """Office001, every schedule in {0,16,32}^8 (6561 = 27 chunks × 243 periods; one period per schedule)"""
+    return {"site": "office001", "basic": True, "caps": caps, "mode": "exhaustive", "chunk": chunk,
+            "dir": {"kind": "exhaustive", "T": 243}}
+
+
 def generate(rng, n, tier):
-    return [_gen_case(rng, i) for i in range(n)]
+    out = [_gen_case(rng, i) for i in range(n)]
+    if tier == "quick":
+        out += [_exhaustive(rng.randrange(27), rng.choice([[33.3], [50], [20]])) for _ in range(3)]
+    else:  # thorough / search: the complete small scope, at three capacities (all / part / few accepted)
+        out += [_exhaustive(k, caps) for caps in ([33.3], [50], [20]) for k in range(27)]
+    return out
 
 
 # ------------------------------------------------------------------ implementation
@@ -229,7 +282,7 @@ def _resolve_direction(case, net):
     sp = SPEC[case["site"]]
     D = np.zeros((n, T))
     kind = d["kind"]
-    if kind == "edge":
+    if kind in ("edge", "exhaustive"):
         return D
     w = d["w"]
     member = np.ones(n, dtype=bool)
@@ -317,7 +370,7 @@ def _edge_schedule(case, net, tol):
 
 
 def run_impl(case):
-    net = _net(case["site"], case["basic"], case["caps"])
+    net = _case_net(case)
     tol = case.get("tol")
     ids = list(net.station_ids)
     n = len(ids)
@@ -342,7 +395,15 @@ def run_impl(case):
     D = _resolve_direction(case, net)
     lam = None
     expected = None
-    if mode in ("edge0", "edge+"):
+    if mode == "exhaustive":
+        base = case["chunk"] * 243
+        S = np.zeros((n, 243))
+        for t in range(243):
+            x = base + t
+            for j in range(n):
+                S[j, t] = 16.0 * (x % 3)
+                x //= 3
+    elif mode in ("edge0", "edge+"):
         S, expected = _edge_schedule(case, net, tol)
         if S is None:
             obs["skip"] = "no exact edge"
@@ -371,6 +432,7 @@ def run_impl(case):
         return obs
     obs["err"] = None
     obs["feasible"] = feas
+    obs["feas_t"] = [_feas(net, S[:, t:t + 1], tol) for t in range(S.shape[1])]
     obs["mags"] = [[float(x) for x in row] for row in mags.tolist()]
     return obs
 
@@ -384,16 +446,16 @@ def _S(obs):
 def model_request(case, obs):
     if "S" not in obs:
         return None
-    return {"site": case["site"], "caps": [f2b(float(c)) for c in case["caps"]],
+    return {"site": case["site"], "voltage": f2b(_case_voltage(case)), "caps": [f2b(float(c)) for c in case["caps"]],
             "vt": f2b(obs["tol"][0]), "rt": f2b(obs["tol"][1]), "S": obs["S"]}
 
 
-def _razor(obs):
-    """is some |aggregate| within 1e-9 (relative) of its bound?"""
+def _razor(obs, t=None):
+    """is some |aggregate| (of period t / of any period) within 1e-9 (relative) of its bound?"""
     vt, rt = obs["tol"]
     for lim, row in zip(obs["limits"], obs["mags"]):
         b = lim + max(vt, rt * lim)
-        for m in row:
+        for m in (row if t is None else row[t:t + 1]):
             if abs(m - b) <= 1e-9 * max(1.0, abs(b)):
                 return True
     return False
@@ -408,8 +470,10 @@ def compare(case, obs, model):
     ma = [a[0] / a[1] for a in model.get("angles", [])]
     if ma != obs["angles"]:
         out.append("phase angles differ between the regenerated model data and the site object")
+    if model.get("err") == "no such topology in the dump":
+        return [f"the regenerated site data have no {case['site']} topology at {_case_voltage(case)} V"]
     if not model.get("structure_ok", False):
-        out.append("model: topoOk is false on the regenerated site data")
+        out.append("model: topoOk is false on the regenerated site data: " + "; ".join(model.get("structure_diag", [])[:6]))
     if obs.get("err") is not None or model.get("err") is not None:
         if (obs.get("err") == "ValueError") != (model.get("err") == "shape") or (
                 model.get("err") not in (None, "shape")):
@@ -429,9 +493,14 @@ def compare(case, obs, model):
     exact_edge = case["mode"] in ("edge0", "edge+")
     if model["feasible"] != obs["feasible"] and (exact_edge or not _razor(obs)):
         out.append(f"is_feasible impl={obs['feasible']} model={model['feasible']}")
+    for t, (a, m) in enumerate(zip(obs["feas_t"], model.get("feas_t", []))):
+        if a != m and (exact_edge or not _razor(obs, t)):
+            out.append(f"is_feasible of period {t} alone: impl={a} model={m}")
+            break
+    if len(model.get("feas_t", [])) != len(obs["feas_t"]):
+        out.append("number of periods differs")
     # per-transformer sums / power, pods: model (its own EVSE sets) vs implementation-side sums (pinned sets)
     S = _S(obs)
-    V = np.array(obs["voltages"])
     sp = SPEC[case["site"]]
     mx = {x["name"]: x for x in model["xfmrs"]}
     for (xname, capi, pred) in sp["xfmrs"]:
@@ -439,7 +508,7 @@ def compare(case, obs, model):
             out.append(f"model has no transformer {xname!r}")
             continue
         sel = np.array([pred(s) for s in obs["stations"]])
-        p_impl = (V[sel, None] * S[sel, :]).sum(axis=0)  # W at the EVSE voltage
+        p_impl = VLL_NOM * S[sel, :].sum(axis=0)          # W at the nominal 208 V
         p_model = [b2f(x) for x in mx[xname]["powerW"]]  # W at 120√3 V
         for t in range(S.shape[1]):
             if not close(p_impl[t] / KV, p_model[t]):
@@ -476,8 +545,9 @@ def oracle(case, obs):
         fails.append({"kind": "evse_angle_not_line_to_line", "detail": f"{bad[:5]} angles {sorted(set(obs['angles']))}"})
     if len(ids) != sp["n"] or len(set(ids)) != len(ids):
         fails.append({"kind": "station_set_changed", "detail": f"{len(ids)} stations, expected {sp['n']}"})
-    if any(v != VLL_NOM for v in obs["voltages"]):
-        fails.append({"kind": "evse_voltage_not_nominal", "detail": str(sorted(set(obs["voltages"])))})
+    if any(v != _case_voltage(case) for v in obs["voltages"]):
+        fails.append({"kind": "evse_voltage_not_as_requested",
+                      "detail": f"{sorted(set(obs['voltages']))} for voltage argument {_case_voltage(case)}"})
     if obs["uncovered"]:
         fails.append({"kind": "evse_not_under_transformer", "detail": f"{obs['uncovered'][:6]}"})
     lonely = [s for s in ids if sum(1 for (_, _, pred) in sp["xfmrs"] if pred(s)) != 1]
@@ -493,9 +563,13 @@ def oracle(case, obs):
     if obs.get("edge_expected") is not None and obs["feasible"] != obs["edge_expected"]:
         fails.append({"kind": "edge_decision_wrong",
                       "detail": f"mode {case['mode']}: is_feasible={obs['feasible']} expected={obs['edge_expected']}"})
-    if not obs["feasible"]:
+    if obs["feasible"] != all(obs["feas_t"]):
+        fails.append({"kind": "feasible_not_conjunction_of_periods",
+                      "detail": f"is_feasible={obs['feasible']} but per period {obs['feas_t'][:8]}"})
+    ok_t = [t for t, f in enumerate(obs["feas_t"]) if f]
+    if not ok_t:
         return fails
-    V = np.array(obs["voltages"])
+    S = S[:, ok_t]   # every accepted period is judged on its own (power at the nominal 208 V)
     ang = np.array(obs["angles"])
     slack = 1e-9
     # (b) power through every transformer
@@ -504,8 +578,8 @@ def oracle(case, obs):
         cap = float(case["caps"][capi])
         lim = cap * 1000.0 / 360.0
         allowed_kw = KV * (cap * 1000.0 + 360.0 * _tolterm(vt, rt, lim)) / 1000.0
-        p_kw = (V[sel, None] * S[sel, :]).sum(axis=0) / 1000.0
-        for t, p in enumerate(p_kw):
+        p_kw = VLL_NOM * S[sel, :].sum(axis=0) / 1000.0
+        for t, p in zip(ok_t, p_kw):
             if p > allowed_kw * (1 + slack) + slack:
                 fails.append({"kind": "transformer_power_above_rating",
                               "detail": f"{case['site']} transformer {xname!r} rated {cap} kW: feasible schedule draws {p:.6f} kW "
@@ -516,7 +590,7 @@ def oracle(case, obs):
         sel = np.array([s in members for s in ids])
         tot = S[sel, :].sum(axis=0)
         b = rating + _tolterm(vt, rt, rating)
-        for t, x in enumerate(tot):
+        for t, x in zip(ok_t, tot):
             if x > b * (1 + slack) + slack:
                 fails.append({"kind": "pod_current_above_rating",
                               "detail": f"{pname}: {x:.6f} A > {rating} A (+tolerance) in period {t}"})
@@ -532,30 +606,30 @@ def oracle(case, obs):
             worst = max(x * x + x * z + z * z, x * x + x * y + y * y, y * y + y * z + z * z)
             if math.sqrt(worst) > b * (1 + slack) + slack:
                 fails.append({"kind": "panel_current_above_rating",
-                              "detail": f"{pname}: line current {math.sqrt(worst):.6f} A > {rating} A (+tolerance) in period {t}"})
+                              "detail": f"{pname}: line current {math.sqrt(worst):.6f} A > {rating} A (+tolerance) in period {ok_t[t]}"})
                 break
     return fails
 
 
 def _headroom(case, obs):
     """largest ratio power / allowance over the transformers (feasible schedules only)"""
-    if "S" not in obs or obs.get("err") is not None or not obs.get("feasible"):
+    if "S" not in obs or obs.get("err") is not None or not any(obs.get("feas_t", [])):
         return None
     S = _S(obs)
     if S.shape[0] != len(obs["stations"]):
         return None
-    V = np.array(obs["voltages"])
+    S = S[:, [t for t, f in enumerate(obs["feas_t"]) if f]]
     best = 0.0
     for (xname, capi, pred) in SPEC[case["site"]]["xfmrs"]:
         sel = np.array([pred(s) for s in obs["stations"]])
         cap = float(case["caps"][capi])
-        p = (V[sel, None] * S[sel, :]).sum(axis=0).max() / 1000.0
+        p = VLL_NOM * S[sel, :].sum(axis=0).max() / 1000.0
         best = max(best, p / (KV * cap))
     return best
 
 
 def nontrivial(case, obs):
-    if case["mode"] in ("boundary-", "boundary+", "edge0", "edge+") and "S" in obs:
+    if case["mode"] in ("boundary-", "boundary+", "edge0", "edge+", "exhaustive") and "S" in obs:
         return True
     h = _headroom(case, obs)
     return h is not None and h > 0.99
@@ -564,7 +638,8 @@ def nontrivial(case, obs):
 def features(case, obs):
     out = ["site:" + case["site"], "basic:" + str(bool(case["basic"])), "mode:" + case["mode"],
            "dir:" + case["dir"]["kind"], "T:" + str(case["dir"]["T"]),
-           "caps:" + ("default" if list(case["caps"]) == list(SPEC[case["site"]]["defaults"]) else "other")]
+           "caps:" + ("default" if list(case["caps"]) == list(SPEC[case["site"]]["defaults"]) else "other"),
+           "voltage:" + str(case.get("voltage", "default")), "factory:" + str(case.get("wrapper") or "site function")]
     if "skip" in obs:
         out.append("skip:" + obs["skip"])
         return out
@@ -572,6 +647,8 @@ def features(case, obs):
         out.append("err:" + obs["err"])
         return out
     out.append("feasible:" + str(obs["feasible"]))
+    if case["mode"] == "exhaustive":
+        out.append(f"exhaustive_periods_accepted:{sum(obs['feas_t'])}/243")
     # which constraint class binds (largest |aggregate| / bound)
     vt, rt = obs["tol"]
     best, who = -1.0, None
